@@ -28,6 +28,7 @@ EXPLANATION = (
     " Also decided (rules added after the fifth blind round): (R1.9) every element typedlist._pack writes is X._pack() with X of the element type (the list mutators are not overridden, raw values can sit in the list), records inside record[] excepted."
     " Rules added after the sixth blind round: (R1.10) path._unpack / command._unpack construct the class the stored flavour tag names on every return; (R1.11 = R3.5 of C03) readers register every descriptor frame unconditionally."
     " Rules added after the seventh blind round: (R1.12 = R5.12 of C05) the attributes a validating setter writes are kept in step, so the packed form is that of the value last accepted."
+    " Taken over at the end of the session so that the own check names what a sibling already named: (R1.13 = R3.3 of C03) descriptors are in the stream before the records that need them."
 )
 RULE_SUMMARY = "instances: sub-type branches, (class, _pack/_unpack) pairs, template loops, struct sites; non-trivial = arity/shape/discriminator set computed"
 
@@ -559,6 +560,7 @@ def run(ctx):
 
     # ------------------------------------------------------------------ R1.12 (sibling rule) what the packer writes for a digest follows the visible value
     ctx.import_rule("C05", "R5.12", "R1.12", "digest._pack writes the binary attributes: a setter keeps them in step with the hex text on every normal path")
+    ctx.import_rule("C03", "R3.3", "R1.13", "a record is read back only if the descriptors it needs are in the stream before it: member descriptors of a grouped record are registered, and every new descriptor is written at once")
 
 
 
